@@ -459,8 +459,17 @@ pub fn random_run(rng: &mut Rng, run_no: u64, len: usize, out: &mut Out) {
             35..=44 if run.stake => json!({"act":"claim","by":who,"args":{}}),
             35..=44 => json!({"act":"update_members","by":adm,"args":{"add":[{"a":who,"w":rng.range(0, top_w)}],"remove":[]}}),
             45..=52 => json!({"act":"update_admin","by":adm,"args":{"new":rng.pick(&["ad","ad2","ad2","none"])}}),
-            53..=62 => json!({"act":"add_hook","by":adm,"args":{"hook":rng.pick(&["h1","h2"])}}),
-            63..=67 => json!({"act":"remove_hook","by":adm,"args":{"hook":rng.pick(&["h1","h2"])}}),
+            53..=62 => {
+                let h = *rng.pick(&["h1", "h2"]);
+                let by = if rng.chance(1, 6) { h.to_string() } else { adm.clone() };
+                json!({"act":"add_hook","by":by,"args":{"hook":h}})
+            }
+            63..=67 => {
+                // also a registered hook trying to unregister itself (or the other one), and a member
+                let h = *rng.pick(&["h1", "h2"]);
+                let by = match rng.below(5) { 0 | 1 => h.to_string(), 2 => rng.pick(&["h1", "h2", "a1"]).to_string(), _ => adm.clone() };
+                json!({"act":"remove_hook","by":by,"args":{"hook":h}})
+            }
             68..=84 => json!({"act":"advance","by":"env","args":{"dh":rng.range(0,2),"dt":rng.range(0,9)}}),
             _ => json!({"act":"query","by":"env","args":{"kind":"member","addr":who,"h":run.w.h as i64}}),
         };
